@@ -757,7 +757,11 @@ func (w *World) opDiff(op *Op) {
 	// cursor interface must agree
 	var gotC []string
 	rc := guard(func() error {
-		dc, err := newM.StartDiff(ctx, oldM)
+		// the cursor is opened under a context of its own that is finished before the first step
+		// (a helper with "defer cancel()" that returns the cursor); the steps bring their own
+		sctx, scancel := context.WithCancel(ctx)
+		dc, err := newM.StartDiff(sctx, oldM)
+		scancel()
 		if err != nil {
 			return err
 		}
